@@ -247,7 +247,11 @@ class Scenario:
         post = self.post_calls()
         if post and status == "ok" and not exc:
             self.rec.bind(n)
-            res.append(self._run_calls(n, post))
+            try:
+                res.append(self._run_calls(n, post))
+            except sched.Abandoned:
+                # the object is unusable after the run: a lock was left held, the post call can never return
+                res.append([[9, 8] for _ in post])
         elif post:
             res.append([])
         # a call that never returned (deadlock) shows as a missing result -> pad with an error marker
